@@ -123,10 +123,7 @@ theorem kill_stage {ok : Sys → Action → Prop} {j0 jo : JobObj} {F0 : Int} {s
     · rw [hpods]; exact h.pods.nodup
   · intro p hp f hf
     rw [hpods] at hp
-    obtain ⟨tk, htk⟩ := podTask_of_noPanic (h.pods.sane p hp).1
-    have := podTask_finish htk
-    rw [hf] at this
-    exact podFinLB_self (h.lbPods p hp) htk (Option.some.inj this).symm
+    exact podFinLB_raw (h.lbPods p hp) hf
   · rw [hclock, hcfg]
     exact httl
 
